@@ -299,6 +299,11 @@ func c17alphabet(thorough bool, depth int) []c17op {
 		titles = []string{"notice", "NOTICE", "panic", "Hint"}
 		opts = []int{0, 2, 4, 7}
 	}
+	if depth >= 4 {
+		vals = []int{-8, 12, 18}
+		titles = []string{"notice", "NOTICE", "panic"}
+		opts = []int{0, 7}
+	}
 	var ops []c17op
 	for _, v := range vals {
 		for _, t := range titles {
@@ -325,7 +330,7 @@ func c17run(c *Ctx) {
 	c.Flag("exhaustive", true)
 	maxDepth := 2
 	if c.Thorough() {
-		maxDepth = 3
+		maxDepth = 4
 	}
 	seen := map[string]bool{}
 	v, k := c17replay(c17case{}, true)
@@ -341,13 +346,8 @@ func c17run(c *Ctx) {
 	n := 0
 	depthDone := 0
 	for depth := 1; depth <= maxDepth; depth++ {
-		ops := c17alphabet(c.Thorough(), maxDepth)
-		if depth <= 2 && maxDepth >= 3 {
-			ops = c17alphabet(c.Thorough(), 3)
-		}
-		if maxDepth == 2 {
-			ops = c17alphabet(false, 2)
-		}
+		// depths 1-2: the full alphabet; depth 3: the reduced one; depth 4: a smaller one still (thorough)
+		ops := c17alphabet(false, depth)
 		var next []c17case
 		for _, h := range frontier {
 			for _, o := range ops {
@@ -384,7 +384,7 @@ func c17run(c *Ctx) {
 		}
 	}
 	c.Max("depth_completed", int64(depthDone))
-	c.Info("register_ops_per_level", len(c17alphabet(c.Thorough(), maxDepth)))
+	c.Info("register_ops_per_depth", fmt.Sprint(len(c17alphabet(false, 1)), len(c17alphabet(false, 2)), len(c17alphabet(false, 3)), len(c17alphabet(false, 4))))
 	c.Assume("a title that differs from a name in use only by letter case may be refused or accepted; either way every level must round-trip")
 	c.Assume("titles are ASCII (ShortTag widths are compared in bytes)")
 }
